@@ -95,7 +95,8 @@ func checkC05(c *FileCase) *Violation {
 		}
 		outs[i] = res.Out
 	}
-	m := collectNames(c.File)
+	model := c.model()
+	m := collectNames(model)
 	a0, a1 := ParseAsm(outs[0]), ParseAsm(outs[1])
 	m.noteOutput(a0)
 	m.noteOutput(a1)
@@ -160,7 +161,7 @@ func checkC05(c *FileCase) *Violation {
 	}
 	// (d) (e) in either form
 	for i, tag := range []string{"unoptimized", "optimized"} {
-		if v := layoutClauses(c.File, outs[i], tag); v != nil {
+		if v := layoutClauses(model, outs[i], tag); v != nil {
 			v.Detail = detail(v.Detail)
 			return v
 		}
@@ -182,6 +183,9 @@ func checkC05(c *FileCase) *Violation {
 }
 
 func genC05(t *rapid.T) *FileCase {
+	if rapid.IntRange(0, 2).Draw(t, "kitchen") == 0 {
+		return genKitchenCase(t, pick(6, 16), pick(4, 5))
+	}
 	cfg := DefaultFileCfg()
 	cfg.CF.MaxDepth = pick(4, 5)
 	if rapid.Bool().Draw(t, "scriptsonly") {
